@@ -203,8 +203,10 @@ def count_kinds(tree, hist):
 
 
 # ------------------------------------------------------------------ property oracle on one observation
-def oracle(trees, res):
-    """res: 9 outcomes + 3 hashes as printed by the harness.  Yields (signature, text)."""
+def oracle(trees, res, named=()):
+    """res: 9 outcomes + 3 hashes as printed by the harness; named: for each U answer in order, the
+    kind the UnsupportedError names.  Yields (signature, text)."""
+    named = list(named)
     n = len(trees)
     e = [res[i * n:(i + 1) * n] for i in range(n)]
     h = res[n * n:n * n + n]
@@ -215,11 +217,11 @@ def oracle(trees, res):
             ident = same(trees[i], trees[j])
             if r == 'U':
                 common = feats[i][3] & feats[j][3]
-                if common:
-                    for k in sorted(common):
-                        yield 'throws:' + k, 'Equal(T%d,T%d) throws UnsupportedError (%s)' % (i, j, k)
+                k = named.pop(0) if named else '?'
+                if k in common:
+                    yield 'throws:' + k, 'Equal(T%d,T%d) throws UnsupportedError (%s)' % (i, j, k)
                 else:
-                    yield 'throws:unexpected', 'Equal(T%d,T%d) throws UnsupportedError on supported kinds' % (i, j)
+                    yield 'throws:unexpected', 'Equal(T%d,T%d) throws UnsupportedError naming %s, which both trees do not contain' % (i, j, k)
             elif r == 'X':
                 common = feats[i][4] & feats[j][4]
                 if common:
@@ -248,20 +250,34 @@ def oracle(trees, res):
                         yield 'intransitive', 'Equal(T%d,T%d), Equal(T%d,T%d) true but Equal(T%d,T%d)=%s' % (i, j, j, k, i, k, e[i][k])
     for i in range(n):
         if h[i] == 'U':
-            ks = feats[i][3] - {'STRING'}
-            if ks:
-                for k in sorted(ks):
-                    yield 'throws:' + k, 'hash(T%d) throws UnsupportedError (%s)' % (i, k)
+            k = named.pop(0) if named else '?'
+            if k in feats[i][3] - {'STRING'}:
+                yield 'throws:' + k, 'hash(T%d) throws UnsupportedError (%s)' % (i, k)
             else:
-                yield 'hash-throws:unexpected', 'hash(T%d) throws UnsupportedError on supported kinds' % i
+                yield 'hash-throws:unexpected', 'hash(T%d) throws UnsupportedError naming %s, which the tree does not contain' % (i, k)
         elif h[i] == 'E':
             yield 'exception:unexpected', 'hash(T%d) throws an unexpected exception' % i
 
 
 # ------------------------------------------------------------------ running both sides
+def expr_info_source(ck):
+    """src/expr-info.cc is generated at build time (gitignored) by gen-expr-info from the kind table in
+    src/gen-expr-info.cc; regenerate it from the current tree (cached by ck.cxx) instead of trusting a copy."""
+    gen = ck.cxx('gen_expr_info', [os.path.join(REPO, 'src', 'gen-expr-info.cc'), os.path.join(REPO, 'src', 'format.cc'), os.path.join(REPO, 'src', 'posix.cc')], flags=['-O0', '-w'])
+    d = os.path.join(BUILD, 'gen', 'c18-' + os.path.basename(gen))
+    out = os.path.join(d, 'expr-info.cc')
+    if not os.path.exists(out):
+        os.makedirs(d, exist_ok=True)
+        rc, o, e = sh([gen, out + '.tmp', os.path.join(d, 'nl-opcodes.h')], timeout=120)
+        if rc != 0:
+            raise RuntimeError('gen-expr-info failed: ' + (o + e)[-1000:])
+        os.rename(out + '.tmp', out)
+    return out
+
+
 def build_harness(ck, extra=()):
-    srcs = [os.path.join(VERIF, 'harness', 'h_expr.cc')] + [os.path.join(REPO, s) for s in
-                                                            ('src/expr.cc', 'src/format.cc', 'src/expr-info.cc')]
+    srcs = [os.path.join(VERIF, 'harness', 'h_expr.cc'), os.path.join(REPO, 'src', 'expr.cc'),
+            os.path.join(REPO, 'src', 'format.cc'), expr_info_source(ck)]
     flags = SAN + list(extra)
     objs = ck.objects(srcs, flags=flags, tag='c18' + ('n' if extra else ''))
     return ck.link('h_expr' + ('_ndebug' if extra else ''), objs, flags=['-fsanitize=address,undefined'], libs=())
@@ -269,7 +285,7 @@ def build_harness(ck, extra=()):
 
 def run_impl(ck, exe, args, outp):
     # no symbolizer in the normal run: the forked children that die on purpose would each start one
-    env = dict(os.environ, ASAN_OPTIONS='detect_leaks=1:symbolize=0', UBSAN_OPTIONS='symbolize=0')
+    env = dict(os.environ, ASAN_OPTIONS='detect_leaks=1:symbolize=0:quarantine_size_mb=4', UBSAN_OPTIONS='symbolize=0')
     with open(outp, 'w') as f:
         p = subprocess.run([exe] + args, stdout=f, stderr=subprocess.PIPE, text=True, env=env)
     if p.returncode == 0:
@@ -316,7 +332,8 @@ def examine(ck, outp, mo, st, stream):
                 continue
             op, rest = line.split(' => ', 1)
             impl = rest.split(' # ')[0].strip()
-            how = rest.split(' # ')[1] if ' # ' in rest else ''
+            how = rest.split(' # ')[1].split(' #')[0] if ' # ' in rest else ''
+            named = rest.split(' #')[2].split() if rest.count(' #') >= 2 else []
             st.lines += 1
             if ml != impl:
                 corr_bad.append((ln, op, impl, ml))
@@ -359,7 +376,7 @@ def examine(ck, outp, mo, st, stream):
                 for j in range(i + 1, n):
                     if res[i * n + j] == '1' and trees[i] != trees[j]:
                         st.pairs_equal_distinct_bits += 1
-            for sig, text in oracle(trees, res):
+            for sig, text in oracle(trees, res, named):
                 oracle_bad.setdefault(sig, []).append((ln, op, impl, text))
             if st.triples % 1499 == 7:
                 ck.sample((op[:220] + ' ...' if len(op) > 220 else op) + ' => ' + impl)
@@ -399,34 +416,27 @@ def run(ck):
             proof_ok = False
     drv = ck.driver('drv_c18')
     st = Stats()
-    variants = [('asserts-on', ())]
-    if ck.tier == 'thorough':
-        variants.append(('NDEBUG', ('-DNDEBUG',)))
+    # two builds of the same sources: assertions enabled (MP_ASSERT catches out-of-range accessor use that
+    # the 8x over-allocated nodes would hide from ASan) and -DNDEBUG (what is shipped)
+    counts = {'quick': (10000, 2500), 'thorough': (120000, 30000)}[ck.tier]
+    variants = [('asserts-on', (), counts[0]), ('NDEBUG', ('-DNDEBUG',), counts[1])]
     corpus = sorted(glob.glob(os.path.join(VERIF, 'corpus', 'C18', '*.txt')))
-    first_outputs = {}
-    for vname, extra in variants:
+    for vname, extra, count in variants:
         exe = build_harness(ck, extra)
         ck.log('harness (%s): %s' % (vname, os.path.basename(exe)))
         streams = [('corpus:' + os.path.basename(c), ['file', c]) for c in corpus]
-        streams.append(('gen', ['gen', ck.tier, str(ck.seed)]))
+        streams.append(('gen', ['gen', ck.tier, str(ck.seed if vname == 'asserts-on' else ck.seed + 1000003)]))
         for sname, args in streams:
             tag = re.sub(r'\W', '_', '%s_%s' % (vname, sname))
             outp = os.path.join(BUILD, 'c18.%s.impl.out' % tag)
             mo = os.path.join(BUILD, 'c18.%s.model.out' % tag)
+            os.environ['C18_TRIPLES'] = str(count)
             abort_text = run_impl(ck, exe, args, outp)
             run_model(ck, drv, outp, mo)
+            before = st.lines
             ob, cb, trunc = examine(ck, outp, mo, st, 'gen' if sname == 'gen' else 'corpus')
-            report(ck, 'build/bin/' + os.path.basename(exe), ob, cb, trunc, abort_text, ' '.join(['build/bin/' + os.path.basename(exe)] + args))
-            ck.log('%s/%s: %d lines, oracle classes %s, %d model disagreements' % (vname, sname, st.lines, sorted(ob), len(cb)))
-            # both build variants must answer identically (the F lines hold addresses and are excluded)
-            keep = [l.split(' # ')[0] for l in open(outp) if not l.startswith('F ')]
-            if sname in first_outputs:
-                if first_outputs[sname] != keep:
-                    k = next((i for i, (a, b) in enumerate(zip(first_outputs[sname], keep)) if a != b), -1)
-                    ck.add_violation('variant-differs', 'answers differ between the assertion-enabled and the NDEBUG build on stream %s' % sname,
-                                     {'stream': sname, 'first_differing': keep[k] if k >= 0 else 'length'}, found_input=False)
-            else:
-                first_outputs[sname] = keep
+            report(ck, 'build/bin/' + os.path.basename(exe), ob, cb, trunc, abort_text, ' '.join(['C18_TRIPLES=%d build/bin/%s' % (count, os.path.basename(exe))] + args))
+            ck.log('%s/%s: %d lines, oracle classes %s, %d model disagreements' % (vname, sname, st.lines - before, sorted(ob), len(cb)))
     # hypotheses of the theorems that are facts about libstdc++ / the enum, checked on what was printed
     if len(st.kind_codes) != ALL_KINDS or len(set(st.kind_codes.values())) != ALL_KINDS:
         ck.add_violation('kinds:not-distinct', 'the harness printed %d kinds with %d distinct codes (expected %d)' % (len(st.kind_codes), len(set(st.kind_codes.values())), ALL_KINDS),
@@ -454,7 +464,7 @@ def run(ck):
         'outcomes': dict(sorted(st.outcomes.items())),
         'tree_sizes': dict(st.sizes), 'tree_depths': {str(k): v for k, v in sorted(st.depths.items())},
         'equal_pairs_with_different_descriptions': st.pairs_equal_distinct_bits,
-        'build_variants': [v for v, _ in variants],
+        'build_variants': [v for v, _, _ in variants],
     })
     missing = [k for k in st.kind_codes if k not in st.kinds]
     if missing:
